@@ -41,11 +41,11 @@ def lenientMatch (p : Prog) (o : Obs) : Bool :=
     | .invalid | .outOfFuel | .stuck | .unsupported => false
     | m => let (pr, _, oobNoRevert) := judge m o; pr || oobNoRevert
 
-/-- the release run has the prescribed status, number of payloads and payload sizes: only payload contents differ
+/-- the release run has the prescribed status, number of payloads: only payloads differ (an enum payload may change its size with the variant)
 (signature of finding F4: a non-inlined function returns the wrong by-value aggregate parameter in release) -/
 def sameShape (m : Outcome) (o : Obs) : Bool :=
   match m with
-  | .ok l => !o.reverted && decide (o.logs.map List.length = l.map List.length)
+  | .ok l => !o.reverted && decide (o.logs.length = l.length)
   | _ => false
 
 def sizeClass (n : Nat) : String :=
